@@ -34,7 +34,7 @@ warnings.simplefilter("ignore", SyntaxWarning)     # corpus strings such as '1if
 PROPERTY = "C03"
 LEVEL = "exploration"
 RULE = ("cases = chunks of expression strings from 3 corpora (node instances x 15 nesting wrappers; 15 receivers x every dir() name of 16 builtin types x 6 "
-        "shapes; ~70 escape payloads plus all ordered pair splices in 5 templates), each evaluated in up to 9 load/evaluation contexts. "
+        "shapes; ~70 escape payloads plus all ordered pair splices in 5 templates), each evaluated in up to 9 load/evaluation contexts; plus the residue family (13 name-binding expressions x 10 readers x 2 entry points). "
         "non-trivial = (string, context) pairs that parse as Python (i.e. reach the whitelist or the evaluator); strings are de-duplicated")
 ASSUMPTIONS = ["monitor = CPython audit events + recursive value-kind walk + before/after deep equality; strings outside the three corpora are not covered",
                "bytes / complex / Ellipsis literals are inert data; generator objects are allowed as values (documented next(gen, default)) but their repr inside a produced string is not",
